@@ -1,7 +1,8 @@
 """C20 — handlers are atomic: lock facts regenerated from the Go AST (tools/lockfacts) checked by
 the proved lock-set checker (Model/Lock.v, Proofs/LockP.v) + race-detector harnesses with serial replay."""
-import json, os, re, shutil
+import json, os, re, shutil, sys
 import vlib
+sys.path.insert(0, os.path.dirname(os.path.abspath(__file__)))
 
 CLOSURE = ["Model/Lock.v", "Proofs/LockP.v", "Proofs/LockPrefix.v"]
 OBLIGATIONS = ["repo_facts_wellformed", "repo_well_locked", "repo_wrappers_registered", "repo_no_escape", "repo_race_free",
@@ -231,6 +232,12 @@ def run(ctx):
     ]
     ctx.assumptions += ["handlers are deterministic functions of (state, event) on the generated events (one auto-assignable pool; Allocate ranges over a map of candidate pools otherwise) — "
                         "needed to compare the concurrent final state with the serial replay address by address"]
+    # a handler must not modify state shared with another reconciler: the configuration object handed to SetConfig is the
+    # ConfigReconciler's memo, read by it without the Listener lock (speaker stack harness, group spk)
+    import spk_stack_part
+    n_stack, st_stack = spk_stack_part.run_stack(ctx, sigs={"speaker-mutates-shared-configuration"}, n_quick=16)
+    if isinstance(ctx.cov.get("correspondence"), dict):
+        ctx.cov["correspondence"]["speaker_stack_events"] = n_stack
     ctx.finish(len(allrounds) + nq + len(OBLIGATIONS), distinct + nq,
                "race rounds: 240/300 (thorough 1200/1500) generated events per round delivered by 4-8 goroutines through the real k8s.Listener wrappers, 3 reconciler-like goroutines "
                "consuming CountersForPool / GetStatus / PeersForService (+ the spam loop's gratuitous), under go test -race, final state vs serial replay in recorded acquisition order; "
